@@ -1,4 +1,3 @@
 SPECIFICATION Spec
-CONSTANT MAXEL = 128
 POSTCONDITION Accepted
 CHECK_DEADLOCK FALSE
